@@ -10,16 +10,20 @@ sessions with RedialTimes = 0): `redialForClient` returns false at once.
 Layers, all core Lean and executable:
   1. decision functions (`goonRead`, `health`, `write`);
   2. `Core` + `lstep`: ONE session's lifecycle as an interleaving transition system — the
-     lock-serialised closer thread, the reader thread with its disconnect path (the status LOAD and
-     the status STORE of `readDisconnected` are two steps, the captured value is `rst`), the accept
+     lock-serialised closer thread, the accept path's compare-and-swap Preparing → Ok (a session
+     closed while its hooks run is not revived), the reader thread with its disconnect path (the status LOAD and
+     the status compare-and-swap of `readDisconnected` are two steps, the captured value is `rst`;
+     a failed compare-and-swap goes back to the load), the accept
      phases, the environment (remote close / cut, any goroutine calling `Close()` at any time);
   3. association-list index `AL` (SessionHub) and `World` + `step`: any number of sessions on any
      number of peers, the accept threads (ServeConn order and listener order), SetID threads and the
-     nested `hub.set` (LoadOrStore / Store / `oldSess.Close()`), one step per shared-state access;
+     nested `hub.set` (LoadOrStore + Store under the hub mutex / `oldSess.Close()`), one step per
+     shared-state access; `hub.delete(id, sess)` (Load, compare, Delete under the hub mutex) is one step;
   4. `settle`: run every enabled thread to completion (what happens between two operations of a
      sequential history) and the sequential operations built from it;
   5. `HSt`/`HOp`: the index alone under sequential operations (accept, setID, close, disconnect)
-     with the as-coded `delete(id)` — the object of the induction theorems.
+     with the as-coded `delete(id, sess)` (only the owner's entry goes) — the object of the
+     induction theorems.
 -/
 namespace Teleport.Lifecycle
 
@@ -74,9 +78,10 @@ def write (st : Status) (isReply ctxDone : Bool) (sock : SockRes) : WriteRes × 
 
 /-! ## 2. one session: threads, shared variables, atomic steps -/
 
-/-- accept phase: hooks running / a hook refused / hooks succeeded, `changeStatus(statusOk)`
-    pending / `changeStatus(statusOk)` executed. -/
-inductive Phase | hooks | rejected | accepted | running
+/-- accept phase: hooks running / a hook refused / hooks succeeded, `tryChangeStatus(statusOk,
+    statusPreparing)` pending / it succeeded / it failed (the session was closed while the hooks
+    ran; the accept path returns). -/
+inductive Phase | hooks | rejected | accepted | running | aborted
 deriving DecidableEq, Repr
 
 /-- next action of the goroutine inside `closeLocked` (it holds `s.lock`); `idle` = lock free. -/
@@ -84,7 +89,7 @@ inductive CPc | idle | hubdel | notify | callwait | store | sock | hook
 deriving DecidableEq, Repr
 
 /-- reader goroutine: not started / in the read loop / in `readDisconnected` before the status
-    load / after the load (switch and store pending) / before `sessHub.delete` / before
+    load / after the load (switch and compare-and-swap pending) / before `sessHub.delete` / before
     `socket.Close` / before the `PassiveClosed` store / before `notifyClosed` / before the
     disconnect hook / returned. -/
 inductive RPc | idle | loop | disc0 | loaded | hubdel | sock | closed | notify | hook | done
@@ -112,7 +117,7 @@ def Core.init : Core :=
 /-- the accept / dial hooks have succeeded. -/
 def Core.est (c : Core) : Bool :=
   match c.ph with
-  | .accepted | .running => true
+  | .accepted | .running | .aborted => true
   | _ => false
 
 /-- `Health()` of a session without redial function. -/
@@ -129,7 +134,7 @@ def Core.notify (c : Core) : Core :=
 /-- atomic steps of one session. -/
 inductive LEv
   | hookOk | hookReject   -- outcome of the accept / dial hook chain
-  | storeOk               -- `sess.changeStatus(statusOk)`
+  | storeOk               -- `sess.tryChangeStatus(statusOk, statusPreparing)`
   | spawn                 -- `AnywayGo(sess.startReadAndHandle)` / `sess.startReadAndHandle()`
   | closeCall             -- some goroutine calls `Close()`: takes the lock, `tryChangeStatus`
   | cHubDel | cNotify | cCallWait | cStore | cSock | cHook   -- rest of `closeLocked`
@@ -143,7 +148,10 @@ deriving DecidableEq, Repr
 def lstep (c : Core) : LEv → Option Core
   | .hookOk => if c.ph = .hooks then some { c with ph := .accepted } else none
   | .hookReject => if c.ph = .hooks then some { c with ph := .rejected } else none
-  | .storeOk => if c.ph = .accepted then some { c.store .ok with ph := .running } else none
+  | .storeOk =>
+    if c.ph = .accepted then
+      if c.st = .preparing then some { c.store .ok with ph := .running } else some { c with ph := .aborted }
+    else none
   | .spawn => if c.ph = .running ∧ c.reader = .idle then some { c with reader := .loop } else none
   | .closeCall =>
     if c.closer = .idle then
@@ -172,7 +180,11 @@ def lstep (c : Core) : LEv → Option Core
       match c.rst with
       | .passiveClosed | .activeClosed | .passiveClosing => some { c with reader := .done }
       | .activeClosing => some { c with reader := .hubdel }
-      | _ => some { c.store .passiveClosing with reader := .hubdel }
+      | _ =>
+        -- `tryChangeStatus(statusPassiveClosing, status)`: only the status that was loaded is left;
+        -- when it has changed since the load, `continue`: load again
+        if c.st = c.rst then some { c.store .passiveClosing with reader := .hubdel }
+        else some { c with reader := .disc0 }
     else none
   | .dHubDel =>
     if c.reader = .hubdel then
@@ -183,18 +195,10 @@ def lstep (c : Core) : LEv → Option Core
   | .dNotify => if c.reader = .notify then some { c.notify with reader := .hook } else none
   | .dHook => if c.reader = .hook then some { c with discCnt := c.discCnt + 1, reader := .done } else none
 
-/-- The two windows in which a successful `Close()` CAS races with a blind status store:
-    (1) the reader has loaded `Ok` in `readDisconnected` and has not yet stored `PassiveClosing`;
-    (2) the accept path has not yet executed `changeStatus(statusOk)` (the session is reachable
-        early through `SetID` in an accept hook). -/
-def racy (c : Core) (e : LEv) : Bool :=
-  e = .closeCall && (c.st = .ok || c.st = .preparing) &&
-    ((c.reader = .loaded && (c.rst = .ok || c.rst = .preparing)) || c.ph = .hooks || c.ph = .accepted)
-
-/-- closure of `lstep` (optionally only its race-free steps). -/
-inductive LReach (rf : Bool) : Core → Core → Prop
-  | refl (c : Core) : LReach rf c c
-  | step {a b c : Core} (e : LEv) : LReach rf a b → (rf = true → racy b e = false) → lstep b e = some c → LReach rf a c
+/-- closure of `lstep`: every schedule of one session's threads and its environment. -/
+inductive LReach : Core → Core → Prop
+  | refl (c : Core) : LReach c c
+  | step {a b c : Core} (e : LEv) : LReach a b → lstep b e = some c → LReach a c
 
 /-- no thread of the session has a pending step (quiescent point). -/
 def Core.quiet (c : Core) : Bool :=
@@ -220,6 +224,10 @@ def del (h : AL κ) (k : κ) : AL κ :=
   | [] => []
   | (k', v) :: t => if k' = k then del t k else (k', v) :: del t k
 
+/-- `SessionHub.delete(id, sess)`: `Load`, pointer comparison, `Delete`, under the hub mutex. -/
+def delIf (h : AL κ) (k : κ) (v : Nat) : AL κ :=
+  if h.get k = some v then h.del k else h
+
 /-- `Store` -/
 def put (h : AL κ) (k : κ) (v : Nat) : AL κ :=
   match h with
@@ -231,21 +239,23 @@ end AL
 /-- index key: (peer, session id). -/
 abbrev Key := Nat × Nat
 
-/-- program counter inside `SessionHub.set`: before `LoadOrStore` / before `Store` (loaded `old`) /
+/-- program counter inside `SessionHub.set`: before the locked `LoadOrStore` (+ `Store`) /
     before `oldSess.Close()` / waiting for that `Close()` to return. -/
-inductive SetPc | los | store (old : Nat) | close (old : Nat) | wait (old : Nat)
+inductive SetPc | los | close (old : Nat) | wait (old : Nat)
 deriving DecidableEq, Repr
 
-/-- which accept path runs the session: `ServeConn` / `Dial` (`changeStatus(Ok)`, spawn reader,
-    `sessHub.set`) or the listener closure (`sessHub.set`, `changeStatus(Ok)`, reader in place). -/
+/-- which accept path runs the session: `ServeConn` / `Dial` (CAS Preparing → Ok, spawn reader,
+    `sessHub.set`; CAS failed: return) or the listener closure (`sessHub.set`, CAS Preparing → Ok,
+    reader in place; CAS failed: `sessHub.delete(id, sess)`, return). -/
 inductive Path | serve | listen
 deriving DecidableEq, Repr
 
 inductive APc | hooks | rejected | sOk | sSpawn | sSet (p : SetPc) | lSet (p : SetPc) | lOk | lRun | done
 deriving DecidableEq, Repr
 
-/-- `SetID`: idle / inside `hub.set(s)` (old id kept) / before `hub.delete(oldID)`. -/
-inductive SPc | idle | set (old : Nat) (p : SetPc) | del (old : Nat)
+/-- `SetID`: idle / before the first status check (old id kept) / inside `hub.set(s)` / before
+    `hub.delete(oldID, s)` / before the second status check (and `hub.delete(newID, s)`). -/
+inductive SPc | idle | chk (old : Nat) | set (old : Nat) (p : SetPc) | del (old : Nat) | rechk
 deriving DecidableEq, Repr
 
 structure Sess where
@@ -286,7 +296,7 @@ inductive Prim
   | sid (j : Nat) (p : SPc)
   | id (j : Nat) (v : Nat)
   | put (k : Key) (v : Nat)
-  | del (k : Key)
+  | delIf (k : Key) (v : Nat)
   | new (peer partner id : Nat) (path : Path)
 deriving DecidableEq, Repr
 
@@ -295,38 +305,34 @@ def World.modify (w : World) (j : Nat) (f : Sess → Sess) : Option World :=
   | some s => some { w with sess := w.sess.set j (f s) }
   | none => none
 
-/-- `rf = true`: racy lifecycle steps are disabled. -/
-def applyPrim (rf : Bool) (w : World) : Prim → Option World
+def applyPrim (w : World) : Prim → Option World
   | .core j e =>
     match w.sess[j]? with
     | some s =>
-      if rf && racy s.core e then none
-      else match lstep s.core e with
-        | some c => some { w with sess := w.sess.set j { s with core := c } }
-        | none => none
+      match lstep s.core e with
+      | some c => some { w with sess := w.sess.set j { s with core := c } }
+      | none => none
     | none => none
   | .acc j p => w.modify j fun s => { s with acc := p }
   | .sid j p => w.modify j fun s => { s with sid := p }
   | .id j v => w.modify j fun s => { s with id := v }
   | .put k v => some { w with hub := w.hub.put k v }
-  | .del k => some { w with hub := w.hub.del k }
+  | .delIf k v => some { w with hub := w.hub.delIf k v }
   | .new peer partner id path =>
     some { w with sess := w.sess ++ [⟨peer, partner, id, path, Core.init, .hooks, .idle⟩] }
 
-def applyPrims (rf : Bool) : World → List Prim → Option World
+def applyPrims : World → List Prim → Option World
   | w, [] => some w
-  | w, p :: ps => (applyPrim rf w p).bind fun w' => applyPrims rf w' ps
+  | w, p :: ps => (applyPrim w p).bind fun w' => applyPrims w' ps
 
 /-- one step inside `SessionHub.set(sess i)`; second component: the next pc (`none` = returned). -/
 def planSet (w : World) (i : Nat) (s : Sess) : SetPc → Option (List Prim × Option SetPc)
   | .los =>
-    -- `_sess, loaded := sh.sessions.LoadOrStore(sess.ID(), sess)`
+    -- `mu.Lock(); _sess, loaded := LoadOrStore(sess.ID(), sess); if loaded { Store(sess.ID(), sess) };
+    -- mu.Unlock()`; `if !loaded { return }`; `if sess != oldSess`
     match w.hub.get (s.peer, s.id) with
     | none => some ([.put (s.peer, s.id) i], none)
-    | some old => some ([], some (.store old))
-  | .store old =>
-    -- `sh.sessions.Store(sess.ID(), sess)`; `if sess != oldSess`
-    some ([.put (s.peer, s.id) i], if old = i then none else some (.close old))
+    | some old => some ([.put (s.peer, s.id) i], if old = i then none else some (.close old))
   | .close old =>
     -- `oldSess.Close()`: lock, `closeLocked` begins
     some ([.core old .closeCall], some (.wait old))
@@ -356,7 +362,10 @@ def plan (w : World) : Ev → Option (List Prim)
     | some s =>
       match s.acc with
       | .rejected => some [.core i .closeCall, .acc i .done]      -- `sess.Close()`
-      | .sOk => some [.core i .storeOk, .acc i .sSpawn]
+      | .sOk =>
+        -- `if !sess.tryChangeStatus(statusOk, statusPreparing) { return nil, statConnClosed }`
+        if s.core.st = .preparing then some [.core i .storeOk, .acc i .sSpawn]
+        else some [.core i .storeOk, .acc i .done]
       | .sSpawn => some [.core i .spawn, .acc i (.sSet .los)]
       | .sSet p =>
         (planSet w i s p).map fun (ps, nx) =>
@@ -364,7 +373,10 @@ def plan (w : World) : Ev → Option (List Prim)
       | .lSet p =>
         (planSet w i s p).map fun (ps, nx) =>
           ps ++ [.acc i (match nx with | some q => .lSet q | none => .lOk)]
-      | .lOk => some [.core i .storeOk, .acc i .lRun]
+      | .lOk =>
+        -- `if !sess.tryChangeStatus(statusOk, statusPreparing) { p.sessHub.delete(sess.ID(), sess); return }`
+        if s.core.st = .preparing then some [.core i .storeOk, .acc i .lRun]
+        else some [.core i .storeOk, .delIf (s.peer, s.id) i, .acc i .done]
       | .lRun => some [.core i .spawn, .acc i .done]
       | .hooks | .done => none
   | .setId i v =>
@@ -372,7 +384,7 @@ def plan (w : World) : Ev → Option (List Prim)
     | some s =>
       if s.sid = .idle then
         -- `oldID := s.ID(); if oldID == newID { return }; s.socket.SetID(newID)`
-        if s.id = v then some [] else some [.id i v, .sid i (.set s.id .los)]
+        if s.id = v then some [] else some [.id i v, .sid i (.chk s.id)]
       else none
     | none => none
   | .sid i =>
@@ -381,29 +393,32 @@ def plan (w : World) : Ev → Option (List Prim)
     | some s =>
       match s.sid with
       | .idle => none
+      | .chk old =>
+        -- `if !s.checkStatus(statusPreparing, statusOk) { return }`
+        if s.core.st = .preparing ∨ s.core.st = .ok then some [.sid i (.set old .los)] else some [.sid i .idle]
       | .set old p =>
         (planSet w i s p).map fun (ps, nx) =>
           ps ++ [.sid i (match nx with | some q => .set old q | none => .del old)]
-      | .del old => some [.del (s.peer, old), .sid i .idle]     -- `hub.delete(oldID)`
+      | .del old => some [.delIf (s.peer, old) i, .sid i .rechk]     -- `hub.delete(oldID, s)`
+      | .rechk =>
+        -- `if !s.checkStatus(statusPreparing, statusOk) { hub.delete(newID, s) }`
+        if s.core.st = .preparing ∨ s.core.st = .ok then some [.sid i .idle]
+        else some [.delIf (s.peer, s.id) i, .sid i .idle]
   | .l i e =>
     match w.sess[i]? with
     | none => none
     | some s =>
       if e.isAcc then none
-      else if e = .cHubDel ∨ e = .dHubDel then some [.core i e, .del (s.peer, s.id)]  -- `sessHub.delete(s.ID())`
+      else if e = .cHubDel ∨ e = .dHubDel then some [.core i e, .delIf (s.peer, s.id) i]  -- `sessHub.delete(s.ID(), s)`
       else some [.core i e]
 
-def stepG (rf : Bool) (w : World) (ev : Ev) : Option World :=
-  (plan w ev).bind (applyPrims rf w)
-
 /-- the system as coded: every interleaving. -/
-def step : World → Ev → Option World := stepG false
-/-- ... without the racy `Close()` CAS steps (`racy`). -/
-def stepRF : World → Ev → Option World := stepG true
+def step (w : World) (ev : Ev) : Option World :=
+  (plan w ev).bind (applyPrims w)
 
-inductive Reach (rf : Bool) : World → World → Prop
-  | refl (w : World) : Reach rf w w
-  | step {a b c : World} (ev : Ev) : Reach rf a b → stepG rf b ev = some c → Reach rf a c
+inductive Reach : World → World → Prop
+  | refl (w : World) : Reach w w
+  | step {a b c : World} (ev : Ev) : Reach a b → step b ev = some c → Reach a c
 
 /-- run a schedule; `none` when one of its events is not enabled. -/
 def run : World → List Ev → Option World
@@ -510,13 +525,16 @@ def World.opSetId (w : World) (i v : Nat) : World :=
   settle (fuelOf w1) w1
 
 /-- one end of a new connection is served: `newSession`, the hook chain (which may call
-    `SetID(v)` and then accepts or refuses), the rest of the accept path. -/
-def World.opServe (w : World) (peer partner id : Nat) (path : Path) (hookId : Option Nat) (reject : Bool) : World :=
+    `SetID(v)`, may call `Close()` on the session, and then accepts or refuses), the rest of the
+    accept path. -/
+def World.opServe (w : World) (peer partner id : Nat) (path : Path) (hookId : Option Nat) (reject : Bool)
+    (hookClose : Bool := false) : World :=
   let i := w.sess.length
   let w1 := runSkip w [.new peer partner id path]
   let w2 := match hookId with
     | some v => let x := runSkip w1 [.setId i v]; settle (fuelOf x) x
     | none => w1
+  let w2 := if hookClose then (let x := runSkip w2 [.l i .closeCall]; settle (fuelOf x) x) else w2
   let w3 := runSkip w2 [if reject then .hookReject i else .hookOk i]
   settle (fuelOf w3) w3
 
@@ -538,7 +556,8 @@ def World.opSend (w : World) (i : Nat) (isCall : Bool) : World × Nat :=
 
 /-! ## 5. the index alone, sequential operations -/
 
-/-- sessions of one peer as functions (index ↦ current id, index ↦ live?), the index as coded. -/
+/-- sessions of one peer as functions (index ↦ current id, index ↦ live? = status Preparing / Ok),
+    the index as coded. -/
 structure HSt where
   n : Nat
   idOf : Nat → Nat
@@ -557,9 +576,9 @@ inductive HOp
 deriving DecidableEq, Repr
 
 /-- `Close()` / `readDisconnected` of session `s`: only the first one passes the status guard;
-    it runs `sessHub.delete(s.ID())` — whatever session is stored under that id goes. -/
+    it runs `sessHub.delete(s.ID(), s)` — the entry goes only if it still maps to `s`. -/
 def HSt.kill (h : HSt) (s : Nat) : HSt :=
-  if h.live s then { h with live := fun x => if x = s then false else h.live x, hub := h.hub.del (h.idOf s) }
+  if h.live s then { h with live := fun x => if x = s then false else h.live x, hub := h.hub.delIf (h.idOf s) s }
   else h
 
 /-- `SessionHub.set(s)`: LoadOrStore; if loaded: Store and, if it is another session, close it. -/
@@ -570,14 +589,17 @@ def HSt.set (h : HSt) (s : Nat) : HSt :=
     let h1 := { h with hub := h.hub.put (h.idOf s) s }
     if old = s then h1 else h1.kill old
 
-/-- `SetID(v)`: `socket.SetID(v)`, `hub.set(s)`, `hub.delete(oldID)` — no status check. -/
+/-- `SetID(v)`: `socket.SetID(v)`; only for a session in Preparing / Ok: `hub.set(s)`,
+    `hub.delete(oldID, s)` (the second status check never fires in a sequential history). -/
 def HSt.setID (h : HSt) (s v : Nat) : HSt :=
   if h.idOf s = v then h
   else
     let old := h.idOf s
     let h1 : HSt := { h with idOf := fun x => if x = s then v else h.idOf x }
-    let h2 := h1.set s
-    { h2 with hub := h2.hub.del old }
+    if h.live s then
+      let h2 := h1.set s
+      { h2 with hub := h2.hub.delIf old s }
+    else h1
 
 def HSt.apply (h : HSt) : HOp → HSt
   | .accept id hook reject =>
@@ -599,20 +621,5 @@ def HSt.run (h : HSt) : List HOp → HSt
 /-- the index contains exactly the live sessions, each under its current id. -/
 def HSt.Exact (h : HSt) : Prop :=
   ∀ k s, h.hub.get k = some s ↔ (s < h.n ∧ h.live s = true ∧ h.idOf s = k)
-
-/-- no id is shared: the operation does not use an id that a live session holds at that moment
-    (neither as the address id of a new connection, nor as the target of a `SetID`, in an accept
-    hook or later) and does not re-key a closed session. -/
-def HSt.noShare (h : HSt) : HOp → Prop
-  | .accept id hook _ =>
-      (∀ t, t < h.n → h.live t = true → h.idOf t ≠ id) ∧
-      (∀ v, hook = some v → ∀ t, t < h.n → h.live t = true → h.idOf t ≠ v)
-  | .setID s v => s < h.n → (h.live s = true ∧ ∀ t, t < h.n → t ≠ s → h.live t = true → h.idOf t ≠ v)
-  | _ => True
-
-/-- no operation of the history shares an id at its time. -/
-def HSt.noShareRun (h : HSt) : List HOp → Prop
-  | [] => True
-  | o :: os => h.noShare o ∧ (h.apply o).noShareRun os
 
 end Teleport.Lifecycle
